@@ -61,7 +61,9 @@ def eval_on_grid(f, sheet_vals=None):
                 return ('BAD', 'unexpected-input:%s' % k)
             c1, r1 = R.colnum(m.group(2)), int(m.group(3))
             c2, r2 = (R.colnum(m.group(4)), int(m.group(5))) if m.group(4) else (c1, r1)
-            inputs[k] = R.grid_of((c1, r1, c2, r2))
+            g = R.grid_of((c1, r1, c2, r2))
+            off = (sheet_vals or {}).get(m.group(1))
+            inputs[k] = g if not off else [[v + off for v in row] for row in g]
         sol = dsp(inputs)
         if cell.output not in sol:
             return ('BAD', 'missing-output')
@@ -348,7 +350,28 @@ def run_sheets(case):
             bad('simplify', str(s), 'both areas on their own sheets')
     except Exception as e:
         bad('sheets-exc', type(e).__name__ + ':' + str(e)[:60], 'no exception')
-    ex = 5
+    # values: areas with the same coordinates on two sheets hold different values (sheet S2: +1000)
+    try:
+        import numpy as np
+        from formulas.ranges import Ranges
+        va = Ranges().push('S1!' + R.name(a), np.array(R.grid_of(a), object))
+        vb = Ranges().push('S2!' + R.name(b), np.array([[v + 1000 for v in row] for row in R.grid_of(b)], object))
+        want = sorted([R.val(*c) for c in R.cells(a)] + [R.val(*c) + 1000 for c in R.cells(b)])
+        for label, u in (('a|b', va | vb), ('b|a', vb | va)):
+            got = sorted(np.ravel(np.asarray(u.value, object)).tolist())
+            if got != want:
+                bad('union-value', '%s -> %s' % (label, got[:8]), want[:8])
+    except Exception as e:
+        bad('sheets-exc', type(e).__name__ + ':' + str(e)[:60], 'no exception')
+    ex = 7
+    if ia == ib or (ia * 7 + ib) % 5 == 0:
+        ex += 2
+        na, nb = 'S1!' + R.name(a), 'S2!' + R.name(b)
+        want = N(sum(R.val(*c) for c in R.cells(a)) + sum(R.val(*c) + 1000 for c in R.cells(b)))
+        for f in ('=SUM((%s,%s))' % (na, nb), '=SUM((%s,%s))' % (nb, na)):
+            got = eval_on_grid(f, {'S2': 1000})
+            if got != want:
+                bad('formula', '%s -> %s' % (f, got), want)
     if ia == ib or (ia * 7 + ib) % 11 == 0:
         ex += 2
         na, nb = 'S1!' + R.name(a), 'S2!' + R.name(b)
